@@ -265,10 +265,11 @@ class Session:
         return rep
 
     # ------------------------------------------------------------------ hooks
-    def _make_probe_hook(self):
+    def _make_probe_hook(self, style=None):
         log = self.hook_log
         U = self.U
-        style = len(self.events) % 3                   # decided by when the hook is first registered
+        if style is None:
+            style = len(self.events) % 3               # decided by when the hook is first registered
         newdict = style >= 1
         drops = style == 2                             # a filter: returns a NEW dict that omits a word (added after seed C20h)
         calls = [0]                                    # calls of this hook so far (the per-event log is cleared between events)
@@ -286,12 +287,15 @@ class Session:
             if newdict:
                 params = dict(params)
             calls[0] += 1
-            if drops and calls[0] % 2 == 0:
+            # which moves lose their feed word is a function of the move itself (not of how often the hook ran: a refused
+            # call consults the hooks too, and the differential runs of C05 leave refused calls out)
+            tx = target[0] if target[0] is not None else 0.0
+            if drops and int(round(abs(tx) * 10)) % 2 == 0:
                 # every other move goes out without its feed word (a "dry run" / "keep the modal feed" filter): what the hook
                 # left out must be neither emitted nor remembered
                 log[-1]["dropped"] = any(k.upper() == "F" for k in params)
                 params = {k: v for k, v in params.items() if k.upper() != "F"}
-            params.update(B=float(len(log)))
+            params.update(B=1.0)
             log[-1]["pout"] = {p: qnum(params.get(p), U) for p in PARAM_LETTERS}
             return params
 
@@ -417,7 +421,7 @@ class Session:
             return g.comment(d.get("text", "note"))
         if c == "add_probe_hook":
             if self.probe_hook is None:
-                self.probe_hook = self._make_probe_hook()
+                self.probe_hook = self._make_probe_hook(d.get("style"))
             self.probe_on = True
             return g.add_hook(self._the_probe_hook())
         if c == "remove_probe_hook":
